@@ -108,6 +108,16 @@ func fieldLoad(v ssa.Value, pkg, typ, field string) (ssa.Value, bool) {
 				}
 			}
 		}
+		// ... or one result of an accessor that reads several fields in one critical section
+		if ex, isEx := v.(*ssa.Extract); isEx {
+			if call, isCall := ex.Tuple.(*ssa.Call); isCall {
+				if g := an.StaticCallee(call.Common()); g != nil && an.InModule(g) && len(call.Common().Args) == 1 {
+					if t, fl, isG := an.FieldGetterK(g, ex.Index); isG && t == typ && fl == field && an.FuncPkgPath(g) == pkg {
+						return call.Common().Args[0], true
+					}
+				}
+			}
+		}
 		if f, ok := v.(*ssa.Field); ok {
 			if an.TypeIs(f.X.Type(), pkg, typ) && an.FieldValName(f) == field {
 				return f.X, true
